@@ -18,4 +18,9 @@ CLAIMED['C13'] = {
     'text': 'is_good is proved to compute exactly the documented criteria; get_cycle_vector (good / mask paths, ensure_2d and ensure_equal_dims inlined) is proved to label a wrap-delimited segment iff criteria and mask hold, with the order-preserving renumbering, for all lengths / thresholds / edges. The container flag is bounded only.',
     'note': PROOF_NOTE + 'Single column; phase in [0,2pi].',
 }
+CLAIMED['C10'] = {
+    'technique': 'deductive: contract on the (data,row,col) triples hilberthuang hands to coo_matrix (per-sample bin/column/exactly-once), loop invariants of hilberthuang_1d, define_hist_bins; VCs from the real source discharged by z3/cvc5; bounded stand-in: exhaustive edge-hitting grid vs brute-force histogram (dense, sparse, 1-D)',
+    'text': 'For every number of samples and of bins (IMF columns enumerated 1..3/5) each in-range sample is proved to reach the sparse constructor exactly once with its half-open bin, its own time column and its (squared) amplitude, and every out-of-range sample to be dropped; the 1-D marginal is proved cell by cell. Agreement of the dense/sparse/1-D totals is bounded only.',
+    'note': PROOF_NOTE + 'scipy.sparse.coo_matrix duplicate summation and np.digitize are assumed contracts.',
+}
 PENDING_REASON = {}
